@@ -145,12 +145,23 @@ func JSONGetTime(val *fastjson.Value, prop string) time.Time {
 
 func JSONGetDuration(val *fastjson.Value, prop string) time.Duration {
 	if str := val.Get(prop).GetStringBytes(); len(str) > 0 {
-		var d time.Duration
-		if err := xsd.Unmarshal(str, &d); err == nil {
+		if d, ok := parseDuration(str); ok {
 			return d
 		}
 	}
 	return 0
+}
+
+// parseDuration reads an xsd:duration. The xsd package indexes past the end of some texts that are no durations
+// (a lone "-"): such a text is reported as not being a duration instead of panicking inside a decoder.
+func parseDuration(str []byte) (d time.Duration, ok bool) {
+	defer func() {
+		if recover() != nil {
+			d, ok = 0, false
+		}
+	}()
+	err := xsd.Unmarshal(str, &d)
+	return d, err == nil
 }
 
 func JSONGetPublicKey(val *fastjson.Value, prop string) PublicKey {
